@@ -126,7 +126,23 @@ pub fn contents_real(stack: &Stack<Span<'_>>) -> Contents {
     for i in 0..n.min(stubs::CAP) {
         data[i] = (all[i].start(), all[i].end());
     }
-    Contents { len: n, data, open_snapshots: 0 }
+    Contents { len: n, data, open_snapshots: real_open_snapshots(stack) }
+}
+/// Number of snapshots the real stack holds open. `pest::Stack` has no accessor for it; natively it is read off
+/// the derived `Debug` rendering (`lengths: [(len, remained), ..]`, pest =2.7.14 as pinned by the harness crate),
+/// so that a "snapshot left open" counterexample found on the stub model can be replayed on the real stack.
+/// Under Kani (harnesses that run on the real stack) formatting is out of reach and the count is not observed.
+#[cfg(not(kani))]
+fn real_open_snapshots(stack: &Stack<Span<'_>>) -> usize {
+    let d = format!("{:?}", stack);
+    match d.rfind("lengths: [") {
+        Some(i) => d[i..].matches('(').count(),
+        None => 0,
+    }
+}
+#[cfg(kani)]
+fn real_open_snapshots(_stack: &Stack<Span<'_>>) -> usize {
+    0
 }
 pub fn same_contents(a: &Contents, b: &Contents) -> bool {
     if a.len != b.len {
